@@ -1591,8 +1591,10 @@ class Composite(Parameter):
 
     def _post_setter(self, obj, val):
         if obj is None:
+            # (the class this Parameter object belongs to: a subclass that
+            # was assigned to has a copy of its own)
             for a, v in zip(self.attribs, val):
-                setattr(self.objtype, a, v)
+                setattr(self.owner if self.owner is not None else self.objtype, a, v)
         else:
             for a, v in zip(self.attribs, val):
                 setattr(obj, a, v)
